@@ -31,6 +31,8 @@ type Case struct {
 	// Reuse: every explored run is repeated as the SECOND Execute of one instance (a first Execute with
 	// its own data context and facts, from each world, precedes it) and judged again
 	Reuse bool
+	// NoSplit: do not also build the program one resource per rule
+	NoSplit bool
 }
 
 // Verdict is what a judge returns for one trace.
@@ -163,146 +165,170 @@ func runCase(rep *ev.Reporter, c *Case, maxRuns int, fs *FamilyStats, judge func
 		}
 	}
 	first := true
+	// build provenance: the same program as one resource, and as one resource per rule (both orders);
 	// every order in which NewKnowledgeBaseInstance can clone the rules (the runtime's map order in
-	// production); an order whose instance is isomorphic to one already explored is skipped
+	// production). A (provenance, clone order) whose instance is isomorphic to one already explored is skipped.
 	shapes := map[string]bool{}
 	c0 := c
-	for ord := 0; ord < b.CloneOrders(); ord++ {
-		atomic.AddInt64(&fs.CloneOrders, 1)
-		if inst, err := b.InstanceOrd(ord); err == nil {
-			sig := hx.ShapeSig(inst)
-			if shapes[sig] {
+	base := b
+	type variant struct {
+		b   *hx.Built
+		tag string
+	}
+	variants := []variant{{base, ""}}
+	if len(c.Rules) >= 2 && !c.Reloaded && !c.NoSplit {
+		for _, rev := range []bool{false, true} {
+			tag := "#split"
+			if rev {
+				tag = "#splitrev"
+			}
+			sb, err := hx.BuildSplit(prog, c.Style, rev)
+			if err != nil {
+				rep.Violation(rep.ID+":program-accepted-as-one-resource-rejected-rule-by-rule", err.Error()+"\n  grl: "+prog.Text, map[string]interface{}{"case": c.ID + tag, "grl": prog.Text})
 				continue
 			}
-			shapes[sig] = true
+			variants = append(variants, variant{sb, tag})
 		}
-		atomic.AddInt64(&fs.CloneShapes, 1)
-		cc := *c0
-		cc.Opts.CloneOrd = ord
-		c := &cc
-		ordTag := ""
-		if ord > 0 {
-			ordTag = fmt.Sprintf("#clone%d", ord)
-		}
-		for wi, mk := range c.Worlds {
-			wname := fmt.Sprintf("w%d", wi)
-			if wi < len(c.WorldNames) {
-				wname = c.WorldNames[wi]
+	}
+	for _, vr := range variants {
+		b := vr.b
+		for ord := 0; ord < b.CloneOrders(); ord++ {
+			atomic.AddInt64(&fs.CloneOrders, 1)
+			if inst, err := b.InstanceOrd(ord); err == nil {
+				sig := hx.ShapeSig(inst)
+				if shapes[sig] {
+					continue
+				}
+				shapes[sig] = true
 			}
-			st := &hx.Stats{}
-			hx.Explore(b, mk, c.Opts, maxRuns, st, func(tr *hx.Trace, w *ref.World) {
-				caseID := fmt.Sprintf("%s#%s#%v%s", c.ID, wname, tr.Choices, ordTag)
-				if rep.ReplayFilter != "" && strings.Contains(rep.ReplayFilter, "#") && rep.ReplayFilter != caseID {
-					return
+			atomic.AddInt64(&fs.CloneShapes, 1)
+			cc := *c0
+			cc.Opts.CloneOrd = ord
+			c := &cc
+			ordTag := vr.tag
+			if ord > 0 {
+				ordTag += fmt.Sprintf("#clone%d", ord)
+			}
+			for wi, mk := range c.Worlds {
+				wname := fmt.Sprintf("w%d", wi)
+				if wi < len(c.WorldNames) {
+					wname = c.WorldNames[wi]
 				}
-				outcomes.Store(hashShort(outcomeOf(tr)), true)
-				vs := judge(c, tr, w)
-				nt := false
-				for _, v := range vs {
-					if v.Nontrivial {
-						nt = true
+				st := &hx.Stats{}
+				hx.Explore(b, mk, c.Opts, maxRuns, st, func(tr *hx.Trace, w *ref.World) {
+					caseID := fmt.Sprintf("%s#%s#%v%s", c.ID, wname, tr.Choices, ordTag)
+					if rep.ReplayFilter != "" && strings.Contains(rep.ReplayFilter, "#") && rep.ReplayFilter != caseID {
+						return
 					}
-					atomic.AddInt64(&fs.Foreign, int64(v.Foreign))
-					if v.Sig == "" {
-						continue
-					}
-					// confirm determinism of the verdict: replay the same choices twice more
-					same := true
-					for k := 0; k < 2; k++ {
-						o := c.Opts
-						o.Choices = tr.Choices
-						w2 := mk()
-						tr2 := hx.Run(b, w2, o)
-						found := false
-						for _, v2 := range judge(c, tr2, w2) {
-							if v2.Sig == v.Sig {
-								found = true
-							}
+					outcomes.Store(hashShort(outcomeOf(tr)), true)
+					vs := judge(c, tr, w)
+					nt := false
+					for _, v := range vs {
+						if v.Nontrivial {
+							nt = true
 						}
-						if !found {
-							same = false
-						}
-					}
-					if !same {
-						atomic.AddInt64(&fs.Nondet, 1)
-						fmt.Printf("HARNESS-NONDETERMINISM property=%s case=%s sig=%s (verdict not reproduced on replay; not reported as violation)\n", rep.ID, caseID, v.Sig)
-						continue
-					}
-					rep.Violation(v.Sig, v.What+"\n  case: "+caseID+"\n  grl: "+strings.ReplaceAll(prog.Text, "\n", "\n       ")+"\n  events: "+strings.Join(tr.Events, " "),
-						map[string]interface{}{"case": caseID, "grl": prog.Text, "world": wname, "choices": tr.Choices, "events": tr.Events, "meta": c.Meta})
-				}
-				if nt {
-					atomic.AddInt64(&fs.Nontrivial, 1)
-				}
-				if c.Reuse {
-					for pi, pmk := range c.Worlds {
-						second := func() (*hx.Trace, *ref.World, error) {
-							inst, err := b.InstanceOrd(c.Opts.CloneOrd)
-							if err != nil {
-								return nil, nil, err
-							}
-							o := c.Opts
-							o.KB = inst
-							if pi == wi {
-								o.Choices = tr.Choices
-							}
-							hx.Run(b, pmk(), o)
-							o.Choices = tr.Choices
-							w2 := mk()
-							return hx.Run(b, w2, o), w2, nil
-						}
-						tr2, w2, err := second()
-						if err != nil {
+						atomic.AddInt64(&fs.Foreign, int64(v.Foreign))
+						if v.Sig == "" {
 							continue
 						}
-						atomic.AddInt64(&fs.Reused, 1)
-						for _, v := range judge(c, tr2, w2) {
-							if v.Sig == "" {
-								continue
-							}
-							tr3, w3, _ := second()
-							same := false
-							if tr3 != nil {
-								for _, v3 := range judge(c, tr3, w3) {
-									if v3.Sig == v.Sig {
-										same = true
-									}
+						// confirm determinism of the verdict: replay the same choices twice more
+						same := true
+						for k := 0; k < 2; k++ {
+							o := c.Opts
+							o.Choices = tr.Choices
+							w2 := mk()
+							tr2 := hx.Run(b, w2, o)
+							found := false
+							for _, v2 := range judge(c, tr2, w2) {
+								if v2.Sig == v.Sig {
+									found = true
 								}
 							}
-							if !same {
-								atomic.AddInt64(&fs.Nondet, 1)
-								fmt.Printf("HARNESS-NONDETERMINISM property=%s case=%s sig=%s (second-use verdict not reproduced)\n", rep.ID, caseID, v.Sig)
+							if !found {
+								same = false
+							}
+						}
+						if !same {
+							atomic.AddInt64(&fs.Nondet, 1)
+							fmt.Printf("HARNESS-NONDETERMINISM property=%s case=%s sig=%s (verdict not reproduced on replay; not reported as violation)\n", rep.ID, caseID, v.Sig)
+							continue
+						}
+						rep.Violation(v.Sig, v.What+"\n  case: "+caseID+"\n  grl: "+strings.ReplaceAll(prog.Text, "\n", "\n       ")+"\n  events: "+strings.Join(tr.Events, " "),
+							map[string]interface{}{"case": caseID, "grl": prog.Text, "world": wname, "choices": tr.Choices, "events": tr.Events, "meta": c.Meta})
+					}
+					if nt {
+						atomic.AddInt64(&fs.Nontrivial, 1)
+					}
+					if c.Reuse {
+						for pi, pmk := range c.Worlds {
+							second := func() (*hx.Trace, *ref.World, error) {
+								inst, err := b.InstanceOrd(c.Opts.CloneOrd)
+								if err != nil {
+									return nil, nil, err
+								}
+								o := c.Opts
+								o.KB = inst
+								if pi == wi {
+									o.Choices = tr.Choices
+								}
+								hx.Run(b, pmk(), o)
+								o.Choices = tr.Choices
+								w2 := mk()
+								return hx.Run(b, w2, o), w2, nil
+							}
+							tr2, w2, err := second()
+							if err != nil {
 								continue
 							}
-							rid := fmt.Sprintf("%s#second-use-after-w%d", caseID, pi)
-							rep.Violation(v.Sig+":second-execute-on-instance", v.What+"\n  (observed in the SECOND Execute on one instance; the first ran on world "+fmt.Sprint(pi)+" with its own data context)\n  case: "+rid+"\n  grl: "+strings.ReplaceAll(prog.Text, "\n", "\n       ")+"\n  events: "+strings.Join(tr2.Events, " "),
-								map[string]interface{}{"case": caseID, "grl": prog.Text, "world": wname, "choices": tr.Choices, "events": tr2.Events, "meta": c.Meta, "second_use_after_world": pi})
+							atomic.AddInt64(&fs.Reused, 1)
+							for _, v := range judge(c, tr2, w2) {
+								if v.Sig == "" {
+									continue
+								}
+								tr3, w3, _ := second()
+								same := false
+								if tr3 != nil {
+									for _, v3 := range judge(c, tr3, w3) {
+										if v3.Sig == v.Sig {
+											same = true
+										}
+									}
+								}
+								if !same {
+									atomic.AddInt64(&fs.Nondet, 1)
+									fmt.Printf("HARNESS-NONDETERMINISM property=%s case=%s sig=%s (second-use verdict not reproduced)\n", rep.ID, caseID, v.Sig)
+									continue
+								}
+								rid := fmt.Sprintf("%s#second-use-after-w%d", caseID, pi)
+								rep.Violation(v.Sig+":second-execute-on-instance", v.What+"\n  (observed in the SECOND Execute on one instance; the first ran on world "+fmt.Sprint(pi)+" with its own data context)\n  case: "+rid+"\n  grl: "+strings.ReplaceAll(prog.Text, "\n", "\n       ")+"\n  events: "+strings.Join(tr2.Events, " "),
+									map[string]interface{}{"case": caseID, "grl": prog.Text, "world": wname, "choices": tr.Choices, "events": tr2.Events, "meta": c.Meta, "second_use_after_world": pi})
+							}
 						}
 					}
-				}
-				if first {
-					first = false
-					// determinism self-check: same choices, identical observation
-					o := c.Opts
-					o.Choices = tr.Choices
-					tr2 := hx.Run(b, mk(), o)
-					if strings.Join(tr.Events, "|") != strings.Join(tr2.Events, "|") || tr.FinalDump != tr2.FinalDump {
-						atomic.AddInt64(&fs.Nondet, 1)
-						fmt.Printf("HARNESS-NONDETERMINISM property=%s case=%s (replay of identical choices observed differently)\n  1: %v\n  2: %v\n", rep.ID, caseID, tr.Events, tr2.Events)
+					if first {
+						first = false
+						// determinism self-check: same choices, identical observation
+						o := c.Opts
+						o.Choices = tr.Choices
+						tr2 := hx.Run(b, mk(), o)
+						if strings.Join(tr.Events, "|") != strings.Join(tr2.Events, "|") || tr.FinalDump != tr2.FinalDump {
+							atomic.AddInt64(&fs.Nondet, 1)
+							fmt.Printf("HARNESS-NONDETERMINISM property=%s case=%s (replay of identical choices observed differently)\n  1: %v\n  2: %v\n", rep.ID, caseID, tr.Events, tr2.Events)
+						}
+						rep.Sample(map[string]interface{}{"case": caseID, "grl": prog.Text, "events": tr.Events, "final": tr.FinalDump})
 					}
-					rep.Sample(map[string]interface{}{"case": caseID, "grl": prog.Text, "events": tr.Events, "final": tr.FinalDump})
+				})
+				atomic.AddInt64(&fs.Runs, int64(st.Runs))
+				atomic.AddInt64(&fs.States, int64(st.States))
+				atomic.AddInt64(&fs.Transitions, int64(st.Transitions))
+				if st.Capped {
+					atomic.AddInt64(&fs.Capped, 1)
 				}
-			})
-			atomic.AddInt64(&fs.Runs, int64(st.Runs))
-			atomic.AddInt64(&fs.States, int64(st.States))
-			atomic.AddInt64(&fs.Transitions, int64(st.Transitions))
-			if st.Capped {
-				atomic.AddInt64(&fs.Capped, 1)
-			}
-			for {
-				old := atomic.LoadInt64(&fs.MaxDepth)
-				if int64(st.MaxDepth) <= old || atomic.CompareAndSwapInt64(&fs.MaxDepth, old, int64(st.MaxDepth)) {
-					break
+				for {
+					old := atomic.LoadInt64(&fs.MaxDepth)
+					if int64(st.MaxDepth) <= old || atomic.CompareAndSwapInt64(&fs.MaxDepth, old, int64(st.MaxDepth)) {
+						break
+					}
 				}
 			}
 		}
